@@ -665,6 +665,138 @@ func c13RunEpConcurrent(t *testing.T, stats *VStats) {
 	stats.Add("epc.ops", s.N)
 }
 
+// ---- the lock structure of GetOrCreate, thread by thread (stream c13_lock, model DaeVerif.C13.EPC) ----
+
+type c13LockThread struct {
+	id      int
+	park    *c13GatePark
+	done    bool
+	isNew   bool
+	started chan struct{}
+}
+
+func c13RunEpLock(t *testing.T, stats *VStats) {
+	s := VOpenStream("c13_lock")
+	defer s.Close()
+	r := NewVRand(VSeed() + 505)
+	n := 60
+	if VThorough() {
+		n = 1500
+	}
+	for round := 0; round < n; round++ {
+		e := c13NewEpEnv()
+		var mu sync.Mutex
+		byGid := map[int64]*c13LockThread{}
+		arrive := make(chan *c13LockThread, 64)
+		hook := func(name string, _ ...any) {
+			if name != "getOrCreate.afterFastPathMiss" && name != "getOrCreate.afterRecheckMiss" && name != "create.beforePublish" {
+				return
+			}
+			mu.Lock()
+			th := byGid[c13Goid()]
+			mu.Unlock()
+			if th == nil {
+				return
+			}
+			p := &c13GatePark{name: name, resume: make(chan struct{})}
+			th.park = p
+			arrive <- th
+			<-p.resume
+		}
+		verifYieldHook = hook
+		s.Emit("epc reset", "ok")
+		var threads []*c13LockThread
+		holder := -1
+		spawn := func() {
+			th := &c13LockThread{id: len(threads), started: make(chan struct{})}
+			threads = append(threads, th)
+			ready := make(chan struct{})
+			go func() {
+				mu.Lock()
+				byGid[c13Goid()] = th
+				mu.Unlock()
+				close(ready)
+				<-th.started
+				_, isNew, err := e.gocPlain(0, 0)
+				if err != nil {
+					panic(err)
+				}
+				th.isNew = isNew
+				th.done = true
+				th.park = nil
+				arrive <- th
+			}()
+			<-ready
+			s.Emit("epc spawn", fmt.Sprintf("t=%d", th.id))
+		}
+		show := func(th *c13LockThread) string {
+			at := "start"
+			switch {
+			case th.done && th.isNew:
+				at = "return.new"
+			case th.done:
+				at = "return.hit"
+			case th.park != nil:
+				at = th.park.name
+			}
+			key := c13EpKey(0, false)
+			sh := e.pool.shardFor(key)
+			sh.mu.RLock()
+			_, in := sh.pool[key]
+			sh.mu.RUnlock()
+			return fmt.Sprintf("at=%s dials=%d pool=%s", at, e.dials(), c13B(in))
+		}
+		nth := 1 + r.Intn(4)
+		started := map[int]bool{}
+		for steps := 0; steps < 200; steps++ {
+			var cand []*c13LockThread
+			for _, th := range threads {
+				if th.done {
+					continue
+				}
+				// a thread waiting for the creation mutex can only move when nobody holds it
+				if started[th.id] && th.park != nil && th.park.name == "getOrCreate.afterFastPathMiss" && holder >= 0 {
+					continue
+				}
+				cand = append(cand, th)
+			}
+			canSpawn := len(threads) < nth
+			if len(cand) == 0 && !canSpawn {
+				break
+			}
+			if canSpawn && (len(cand) == 0 || r.Chance(0.4)) {
+				spawn()
+				continue
+			}
+			th := cand[r.Intn(len(cand))]
+			if !started[th.id] {
+				started[th.id] = true
+				close(th.started)
+			} else {
+				p := th.park
+				if p.name == "getOrCreate.afterFastPathMiss" {
+					holder = th.id
+				}
+				th.park = nil
+				close(p.resume)
+			}
+			got := <-arrive
+			if got != th {
+				panic("c13: another thread moved")
+			}
+			if th.done && holder == th.id {
+				holder = -1
+			}
+			s.Emit(fmt.Sprintf("epc step %d", th.id), show(th))
+			stats.Inc("lock.stop." + strings.Fields(show(th))[0][3:])
+		}
+		verifYieldHook = nil
+		e.pool.Close()
+		stats.Inc(fmt.Sprintf("lock.threads%d", nth))
+	}
+	stats.Add("lock.ops", s.N)
+}
+
 func c13RunEp(t *testing.T, stats *VStats) {
 	s := VOpenStream("c13_ep")
 	defer s.Close()
